@@ -32,7 +32,7 @@ func removeAll(p string) {
 func main() {
 	r := ev.New("C20", "exploration")
 	r.Rule("cluster id: one execution per (number of contenders 2-3, fault plan over {none, fail-before, lost-ack} for each contender's transactions, release order of the transactions) enumerated depth-first, plus free races of 2-32 contenders on 1-7 clients with random fault plans (distinct = contenders x clients x which client's transaction created the key x failed calls x faults); " +
-		"bootstrap: one fresh real cluster per round, distinct = (members, K, direct/grpc/mixed, id mode of the contenders {distinct ids, shared store/region/peer id with different content, mixed, byte-identical copies}, malformed requests in the race, resign before the race, resign after, restart) x how the winner arrived; foreign id: distinct = RPC kind x kind of foreign id")
+		"bootstrap: one fresh real cluster per round, distinct = (members, K, direct/grpc/mixed, id mode of the contenders {distinct ids, shared store/region/peer id with different content, mixed, byte-identical copies, one base payload with exactly one field changed per contender incl. ids 2^64-1}, malformed requests in the race, resign before the race, resign after, restart) x how the winner arrived; foreign id: distinct = RPC kind x kind of foreign id")
 	r.Assume("contenders for the cluster id are goroutines calling the hook server.VerifInitOrGetClusterID (= initOrGetClusterID) on instrumented clientv3 clients of one embedded single-node etcd; a contender whose call fails calls again (at most 3 times)")
 	r.Assume("real clusters run in process (lib/srv); handler methods are called on *server.Server and through grpc.Dial + pdpb.NewPDClient against the member's client URL; ground truth comes from a separate un-instrumented clientv3 client of the members' embedded etcd")
 	r.Assume("leader change = Member.ResetLeader on the leader (it campaigns again); restart = Server.Close + CreateServer/Run on the same data dir; LeaderLease is 30 s so that a starved process does not lose its leadership by itself")
